@@ -70,6 +70,11 @@ def case(item) -> tuple:
                 bad = None if n.is_vacuous else rw.check_valid(n)
                 if bad:
                     return ('finding', f'negate-invalid@{text}', f'negate() of {{{text}}} is invalid: {bad}', rep)
+                if len(text) % 4 == 0:
+                    h = rw.history_dependence(lambda x: HplPredicateExpression(x).negate(), gen.build(spec),
+                                              holds=lambda d, o: o.is_vacuous or eq.equivalent(Not(rw.rebuild(d, fresh_metadata=True)), [o.condition], K=K).verdict != 'sat')
+                    if h:
+                        return ('finding', f'negate-history@{text}', f'negate depends on earlier calls: {h}', rep)
                 r = _eq('negate-is-not-negation', text, Not(gen.build(spec)), [n.condition], rep)
                 if r[0] in ('ok', 'vacuous') and not n.is_vacuous:
                     r2 = _ieee('negate-is-not-negation', text, [f], n.condition, lambda zs: z3.Not(zs[0]), lambda vs: not vs[0], rep)
